@@ -163,6 +163,10 @@ def corr_choices(rep: Report, rng, n_cases: int, drv: Driver):
 
 
 # ------------------------------------------------------------------ the real jump
+class _NoJumpPossible(Exception):
+    pass
+
+
 def make_impl(rng, n, dim, ops, steps=2, dt=10.0):
     import torch
     from harness import compat
@@ -178,7 +182,8 @@ def make_impl(rng, n, dim, ops, steps=2, dt=10.0):
     ph = np.array([[rng.choice([0.0, rng.uniform(-3, 3)]) for _ in range(n)] for _ in range(steps)])
     data = compat.make_sequence_data(om, de, ph, U, T, lindblad_ops=ops,
                                      eigenstates=("r", "g") if dim == 2 else ("r", "g", "x"))
-    cfg = compat.mps_config(observables=[Occupation(evaluation_times=[1.0])], precision=1e-10)
+    # the internal state is read directly (site order): keep site order = register order
+    cfg = compat.mps_config(observables=[Occupation(evaluation_times=[1.0])], precision=1e-10, optimize_qubit_ordering=False)
     impl = create_impl(data, cfg)
     return impl, dict(om=om, de=de, ph=ph, U=U, T=T)
 
@@ -209,6 +214,8 @@ def jump_tape(rep: Report, rng, n_cases: int, drv: Driver):
                 captured["pop"] = population
                 captured["w"] = list(weights)
                 # the real random.choices never returns a zero-weight candidate (it would annihilate the state)
+                if max(captured["w"]) <= 1e-12:
+                    raise _NoJumpPossible()   # every operator annihilates this state: not a reachable jump
                 good = [i for i, wi in enumerate(captured["w"]) if wi > 1e-6 * max(captured["w"])]
                 idx = captured["idx"] = rng.choice(good)
                 return [population[idx]]
@@ -216,6 +223,9 @@ def jump_tape(rep: Report, rng, n_cases: int, drv: Driver):
             with mock.patch("random.choices", fake_choices):
                 impl.do_random_quantum_jump()
             after = mps_to_dense(impl.state)
+        except _NoJumpPossible:
+            rep.count("jump_cases_skipped_zero_weights")
+            continue
         except Exception as e:
             rep.fail(f"real do_random_quantum_jump raised {type(e).__name__}: {e}",
                      {"n": n, "dim": dim, "k": k, "seed": seed}, klass=None)
